@@ -245,6 +245,13 @@ impl Gen {
                     fate,
                 }
             }
+            "send_app" if w.cfg.knob("boundary-sizes").is_some() => Action::SendApp {
+                // lengths on both sides of the variable-length-integer boundaries (1 -> 2 and 2 -> 4 bytes of prefix)
+                p: *r.pick(&live),
+                g,
+                len: *r.pick(&[0u16, 5, 62, 63, 64, 65, 200, 16382, 16383, 16384, 16385]),
+                aad_len: *r.pick(&[0u8, 0, 62, 63, 64, 65]),
+            },
             "send_app" => Action::SendApp {
                 p: *r.pick(&live),
                 g,
@@ -408,7 +415,8 @@ impl Gen {
             4 => PropSpec::Custom {
                 val: r.below(200) as u8,
             },
-            _ => PropSpec::SelfRemove,
+            _ if cfg!(feature = "self_remove") => PropSpec::SelfRemove,
+            _ => PropSpec::Update { new_identity: false },
         }
     }
 
